@@ -231,30 +231,56 @@ def parse_real_line(s):
 
 
 def run_real(exe, probes):
-    """probes: list of (id, defname, mode, bytes). Returns {id: parsed}."""
+    """probes: list of (id, defname, mode, bytes). Returns {id: parsed}.  A probe on which the harness
+    process dies (signal) is reported as panic 'CRASH ...' and the rest of its shard is re-run."""
     d = cache_dir('problems')
     nshard = min(NPROC, max(1, len(probes) // 200))
     shards = [probes[i::nshard] for i in range(nshard)]
 
     def one(ij):
         i, ps = ij
-        p = os.path.join(d, 'real_%d_%d.txt' % (os.getpid(), i))
-        with open(p, 'w') as f:
-            for pid, dn, mode, b in ps:
-                f.write('P %s %s %d %s\n' % (pid, dn, mode, b.hex() or '-'))
-        r = subprocess.run([exe, p], stdout=subprocess.PIPE, stderr=subprocess.PIPE, text=True, timeout=3600)
-        os.remove(p)
-        return r
+        out = {}
+        todo = list(ps)
+        rounds = 0
+        while todo and rounds < 12:
+            rounds += 1
+            p = os.path.join(d, 'real_%d_%d.txt' % (os.getpid(), i))
+            with open(p, 'w') as f:
+                for pid, dn, mode, b in todo:
+                    f.write('P %s %s %d %s\n' % (pid, dn, mode, b.hex() or '-'))
+            # a probe takes microseconds; a process that does not finish is hanging in a lexer
+            budget = 45 + len(todo) // 50
+            try:
+                r = subprocess.run([exe, p], stdout=subprocess.PIPE, stderr=subprocess.PIPE, text=True, timeout=budget)
+                stdout, code = r.stdout, r.returncode
+            except subprocess.TimeoutExpired as e:
+                so = e.stdout or b''
+                stdout, code = (so.decode('utf8', 'replace') if isinstance(so, bytes) else so), 'timeout after %ds' % budget
+            os.remove(p)
+            lines_out = stdout.split('\n')
+            if code != 0 and lines_out and not stdout.endswith('\n'):
+                lines_out = lines_out[:-1]          # a partially written last line
+            for ln in lines_out:
+                if ln.startswith('P '):
+                    _, pid, rest = (ln.split(' ', 2) + [''])[:3]
+                    out[pid] = parse_real_line(rest)
+            if code == 0:
+                break
+            # the first probe without a result killed the process
+            rest = [x for x in todo if x[0] not in out]
+            if not rest:
+                break
+            crashed = rest[0]
+            pr = parse_real_line('')
+            pr['panic'] = ('HANG: the lexer did not return (%s)' % code) if isinstance(code, str) else ('CRASH: harness process died (exit %s) on this probe' % code)
+            out[crashed[0]] = pr
+            todo = rest[1:]
+        return out
 
     res = {}
     with cf.ThreadPoolExecutor(max_workers=nshard) as ex:
-        for r in ex.map(one, list(enumerate(shards))):
-            if r.returncode != 0:
-                raise RuntimeError('harness crashed (exit %s): %s' % (r.returncode, r.stderr[-2000:]))
-            for ln in r.stdout.split('\n'):
-                if ln.startswith('P '):
-                    _, pid, rest = (ln.split(' ', 2) + [''])[:3]
-                    res[pid] = parse_real_line(rest)
+        for o in ex.map(one, list(enumerate(shards))):
+            res.update(o)
     return res
 
 
